@@ -49,6 +49,9 @@ def gen(rng, tier):
             st['pre_fail'] = {'idx': sorted(rng.sample(range(n), min(n, rng.choice([1, 1, 2])))), 'exc': rng.choice(['ExcA', 'ExcB', 'KeyError'])}
             if rng.random() < 0.3:
                 st['pre_fail']['idx'] = sorted(set(st['pre_fail']['idx']) | {0})
+    if n and rng.random() < 0.15:
+        # None (a falsy value) is a legitimate result
+        st['none'] = {'idx': sorted(rng.sample(range(n), min(n, rng.choice([1, 2, n]))))}
     src_delays = [rng.choice([0, 0, 0, 0.001, 0.004])]
     if n and rng.random() < 0.4:
         # a source that stalls once for a "human-scale" time (virtual time is free): polling loops, watchdogs and idle timeouts
@@ -78,7 +81,7 @@ def shrink(sc):
     if sc['n'] > 0:
         n = sc['n'] - 1
         st2 = dict(st)
-        for key in ('fail', 'pre_fail'):
+        for key in ('fail', 'pre_fail', 'none'):
             if st2.get(key):
                 st2[key] = dict(st2[key], idx=[i for i in st2[key]['idx'] if i < n])
         yield dict(sc, n=n, stages=[st2])
@@ -86,7 +89,7 @@ def shrink(sc):
         yield dict(sc, stages=[dict(st, delays=[0])])
     if sc.get('src_kind', 'iter') != 'iter':
         yield dict(sc, src_kind='iter')
-    for key in ('return_x', 'return_exceptions', 'pre'):
+    for key in ('return_x', 'return_exceptions', 'pre', 'none'):
         if st.get(key):
             st2 = dict(st)
             st2[key] = False
@@ -108,13 +111,15 @@ def nontrivial(sim, sc, obs):
 
 
 # worker function for the process executor: must be picklable and keep no module state
-def proc_fn(x, delays=None, fail=None, **kw):
+def proc_fn(x, delays=None, fail=None, none=None, **kw):
     if delays:
         d = delays[streams.idx_of(x) % len(delays)]
         if d:
             time.sleep(d)
     if fail and streams.idx_of(x) in fail['idx']:
         streams._raise(fail['exc'], x)
+    if none and streams.idx_of(x) in none['idx']:
+        return None
     return x + streams.PAR_ADD
 
 
@@ -134,7 +139,7 @@ def run(sim, sc):
         pulled_view = _P
     else:
         pulled_view = source
-    fn = streams.StageFn(sim, streams.PAR_ADD, st['delays'], st.get('fail'), name='work')
+    fn = streams.StageFn(sim, streams.PAR_ADD, st['delays'], st.get('fail'), name='work', none=st.get('none'))
     flags = dict(return_x=bool(st.get('return_x')), return_exceptions=bool(st.get('return_exceptions')))
     pre = streams.preproc_fn(st.get('pre_fail')) if st.get('pre') else None
     done_order = []
@@ -169,7 +174,7 @@ def run(sim, sc):
                             except Exception as e:
                                 f.set_exception(e)
                         else:
-                            f.set_result(x + streams.PAR_ADD)
+                            f.set_result(None if (st.get('none') and streams.idx_of(x) in st['none']['idx']) else x + streams.PAR_ADD)
                 else:
                     time.sleep(0.001)
 
@@ -182,7 +187,7 @@ def run(sim, sc):
         it = iter(Parmapper(source, fn, executor='thread', concurrency=st['c'], preprocessor=pre, **flags))
     elif mode == 'parmap_process':
         it = iter(Parmapper(source, proc_fn, executor='process', concurrency=st['c'], preprocessor=pre,
-                            delays=st['delays'], fail=st.get('fail'), **flags))
+                            delays=st['delays'], fail=st.get('fail'), none=st.get('none'), **flags))
     else:
         raise ValueError(mode)
 
